@@ -142,7 +142,7 @@ pub fn analyze_pattern(
     value_provenance: &super::provenance::Provenance,
 ) -> Result<PatternAnalysisResult, Error> {
     let mut identifiers = HashMap::new();
-    let (binding_sets, narrowed_type_id) = analyze_match_pattern(
+    let (mut binding_sets, narrowed_type_id) = analyze_match_pattern(
         env,
         program,
         pattern,
@@ -152,6 +152,28 @@ pub fn analyze_pattern(
         scopes,
         value_provenance,
     )?;
+
+    // A sub-pattern that yields several binding sets — an alternation, or a tuple / partial / star
+    // pattern on a union with several matching variants — is analysed with its own copy of the
+    // identifier table, so a later occurrence of a name it binds (`=[(A[x] | B[x]), x]`) does not
+    // see the first one and comes out as a second binding of that name in the combined set. It is
+    // a repeated identifier: keep the first binding of the set and require the later position to
+    // be equal to it. (Done per set: the first occurrence may sit at a different path in each
+    // alternative, `=[(A[x, _] | B[_, x]), x]`.) The type checks of the set come first, so both
+    // paths exist when the equality is tested.
+    for binding_set in &mut binding_sets {
+        let mut kept: Vec<Binding> = Vec::with_capacity(binding_set.bindings.len());
+        for binding in std::mem::take(&mut binding_set.bindings) {
+            match kept.iter().find(|first| first.name == binding.name) {
+                Some(first) => binding_set.requirements.push(Requirement {
+                    path: first.path.clone(),
+                    check: RuntimeCheck::Path(binding.path),
+                }),
+                None => kept.push(binding),
+            }
+        }
+        binding_set.bindings = kept;
+    }
 
     if binding_sets.is_empty() {
         // Won't match - return never type (empty union)
